@@ -7,6 +7,7 @@ import (
 	"go/types"
 	"sort"
 	"strings"
+	"sync"
 
 	"golang.org/x/tools/go/ssa"
 
@@ -669,9 +670,48 @@ func evalEnum(fn *ssa.Function, k int64) (res ssa.Value, val int64, isConst bool
 	}
 	p0 := fn.Params[0]
 	var fold func(v ssa.Value, r func(ssa.Value) ssa.Value) (int64, bool)
+	// tableEntry: v = m[key] on a package-level constant table (a map literal that nothing modifies)
+	tableEntry := func(lk *ssa.Lookup, r func(ssa.Value) ssa.Value) (entry ssa.Value, found, ok bool) {
+		ld, isL := r(lk.X).(*ssa.UnOp)
+		if !isL || ld.Op != token.MUL {
+			return nil, false, false
+		}
+		g, isG := ld.X.(*ssa.Global)
+		if !isG {
+			return nil, false, false
+		}
+		tbl, isT := constMapTable(fn.Prog, g)
+		if !isT {
+			return nil, false, false
+		}
+		key, isK := fold(lk.Index, r)
+		if !isK {
+			return nil, false, false
+		}
+		e, has := tbl[key]
+		return e, has, true
+	}
 	fold = func(v ssa.Value, r func(ssa.Value) ssa.Value) (int64, bool) {
 		v = r(v)
 		switch x := v.(type) {
+		case *ssa.Extract:
+			if lk, isLk := x.Tuple.(*ssa.Lookup); isLk && lk.CommaOk && x.Index == 0 {
+				if e, found, ok := tableEntry(lk, r); ok {
+					if !found {
+						return 0, isIntType(x.Type())
+					}
+					return fold(e, r)
+				}
+			}
+		case *ssa.Lookup:
+			if !x.CommaOk {
+				if e, found, ok := tableEntry(x, r); ok {
+					if !found {
+						return 0, isIntType(x.Type())
+					}
+					return fold(e, r)
+				}
+			}
 		case *ssa.Const:
 			return constNumber(x)
 		case *ssa.Parameter:
@@ -725,6 +765,16 @@ func evalEnum(fn *ssa.Function, k int64) (res ssa.Value, val int64, isConst bool
 			undecided = true
 			return 0
 		}
+		if ex, isEx := cond.(*ssa.Extract); isEx && ex.Index == 1 {
+			if lk, isLk := ex.Tuple.(*ssa.Lookup); isLk && lk.CommaOk {
+				if _, found, ok := tableEntry(lk, w.Resolve); ok {
+					if found {
+						return 1
+					}
+					return -1
+				}
+			}
+		}
 		b, ok := cond.(*ssa.BinOp)
 		if !ok {
 			undecided = true
@@ -777,7 +827,160 @@ func evalEnum(fn *ssa.Function, k int64) (res ssa.Value, val int64, isConst bool
 	if n, ok := fold(r, resolve); ok {
 		return r, n, true, ""
 	}
+	// a non-integer entry of a constant table (a name, a codec constructor) is the result itself
+	switch x := resolve(r).(type) {
+	case *ssa.Extract:
+		if lk, isLk := x.Tuple.(*ssa.Lookup); isLk && lk.CommaOk && x.Index == 0 {
+			if e, found, ok := tableEntry(lk, resolve); ok && found {
+				return e, 0, false, ""
+			}
+		}
+	case *ssa.Lookup:
+		if e, found, ok := tableEntry(x, resolve); ok && found {
+			return e, 0, false, ""
+		}
+	}
 	return r, 0, false, ""
+}
+
+var (
+	constTablesMu sync.Mutex
+	constTables   = map[*ssa.Global]map[int64]ssa.Value{}
+	constTableBad = map[*ssa.Global]bool{}
+)
+
+// constMapTable: g is a package-level map initialised once, in its package's init, from a map literal with constant
+// integer keys, and nothing in the module stores to g, takes its address or updates/deletes/passes on a value loaded
+// from it (loads feed only lookups, len and range). The result maps each key to the stored entry.
+func constMapTable(prog *ssa.Program, g *ssa.Global) (map[int64]ssa.Value, bool) {
+	constTablesMu.Lock()
+	defer constTablesMu.Unlock()
+	if t, ok := constTables[g]; ok {
+		return t, true
+	}
+	if constTableBad[g] {
+		return nil, false
+	}
+	fail := func() (map[int64]ssa.Value, bool) {
+		constTableBad[g] = true
+		return nil, false
+	}
+	if g.Pkg == nil || !load.InModule(g.Pkg.Pkg) {
+		return fail()
+	}
+	var mk *ssa.MakeMap
+	stores := 0
+	okUses := true
+	var visit func(f *ssa.Function)
+	seen := map[*ssa.Function]bool{}
+	visit = func(f *ssa.Function) {
+		if f == nil || seen[f] {
+			return
+		}
+		seen[f] = true
+		for _, a := range f.AnonFuncs {
+			visit(a)
+		}
+		for _, b := range f.Blocks {
+			for _, ins := range b.Instrs {
+				uses := false
+				for _, op := range ins.Operands(nil) {
+					if *op == ssa.Value(g) {
+						uses = true
+					}
+				}
+				if !uses {
+					continue
+				}
+				switch x := ins.(type) {
+				case *ssa.Store:
+					if x.Addr != ssa.Value(g) {
+						okUses = false // the address is stored somewhere
+						continue
+					}
+					stores++
+					m, isMk := x.Val.(*ssa.MakeMap)
+					if !isMk || f.Name() != "init" || f.Pkg != g.Pkg {
+						okUses = false
+						continue
+					}
+					mk = m
+				case *ssa.UnOp:
+					if x.Op != token.MUL || x.Referrers() == nil {
+						okUses = false
+						continue
+					}
+					for _, r := range *x.Referrers() {
+						switch y := r.(type) {
+						case *ssa.Lookup:
+							if y.X != ssa.Value(x) {
+								okUses = false
+							}
+						case *ssa.Range:
+						case *ssa.Call:
+							if bi, isB := y.Call.Value.(*ssa.Builtin); !isB || bi.Name() != "len" {
+								okUses = false
+							}
+						case *ssa.DebugRef:
+						default:
+							okUses = false
+						}
+					}
+				case *ssa.DebugRef:
+				default:
+					okUses = false
+				}
+			}
+		}
+	}
+	for _, pkg := range prog.AllPackages() {
+		if !load.InModule(pkg.Pkg) {
+			continue
+		}
+		for _, m := range pkg.Members {
+			switch x := m.(type) {
+			case *ssa.Function:
+				visit(x)
+			case *ssa.Type:
+				for _, t := range []types.Type{x.Type(), types.NewPointer(x.Type())} {
+					ms := prog.MethodSets.MethodSet(t)
+					for i := 0; i < ms.Len(); i++ {
+						visit(prog.MethodValue(ms.At(i)))
+					}
+				}
+			}
+		}
+	}
+	if !okUses || stores != 1 || mk == nil || mk.Referrers() == nil {
+		return fail()
+	}
+	tbl := map[int64]ssa.Value{}
+	for _, r := range *mk.Referrers() {
+		switch x := r.(type) {
+		case *ssa.MapUpdate:
+			kc, isK := x.Key.(*ssa.Const)
+			if !isK || x.Map != ssa.Value(mk) {
+				return fail()
+			}
+			k, isN := constNumber(kc)
+			if !isN {
+				return fail()
+			}
+			if _, dup := tbl[k]; dup {
+				return fail()
+			}
+			tbl[k] = x.Value
+		case *ssa.Store:
+			if x.Addr != ssa.Value(g) {
+				return fail()
+			}
+		case *ssa.DebugRef:
+		default:
+			return fail()
+		}
+	}
+	constTables[g] = tbl
+	return tbl, true
 }
 
 type proto05 struct {
